@@ -160,6 +160,12 @@ func c29Replay(raw json.RawMessage) (bool, []string) {
 		key, msg = c29Encode(int(r.Value), new(bytes.Buffer), rd)
 	case "fixedheader":
 		key, msg = c29FixedHeader(int(r.Value))
+	case "embedded-subid":
+		key, msg = c29Embedded("subid", int(r.Value))
+	case "embedded-proplen":
+		key, msg = c29Embedded("proplen", int(r.Value))
+	case "embedded-overlong":
+		key, msg = c29EmbeddedOverlong()
 	default:
 		b, _ := hex.DecodeString(r.Hex)
 		key, msg, _ = c29Decode(b, rd)
@@ -168,6 +174,75 @@ func c29Replay(raw json.RawMessage) (bool, []string) {
 		return false, []string{"no violation"}
 	}
 	return true, []string{"key=" + key, msg}
+}
+
+// c29Embedded checks the variable byte integers INSIDE packets: kind "subid" puts v into the
+// Subscription Identifier of an MQTT 5 SUBSCRIBE and of a PUBLISH; kind "proplen" builds a
+// PUBLISH whose property section (user properties) is exactly v bytes long. The broker's
+// encoder must write byte for byte what the reference encoder writes (minimal integers),
+// and the broker's decoder must give back the same packet.
+func c29Embedded(kind string, v int) (key, msg string) {
+	var gs []ref.Packet
+	switch kind {
+	case "subid":
+		gs = []ref.Packet{
+			{Type: ref.SUBSCRIBE, PacketID: 7, Filters: []ref.Filter{{Filter: "a/b", Opts: 1}}, Props: ref.Props{{ID: ref.PSubscriptionID, Num: uint32(v)}}},
+			{Type: ref.PUBLISH, Topic: "a/b", Payload: []byte("p"), Qos: 1, PacketID: 7, Props: ref.Props{{ID: ref.PSubscriptionID, Num: uint32(v)}}},
+		}
+	case "proplen":
+		var ps ref.Props
+		left := v
+		for left > 0 {
+			n := left
+			if n > 65541 {
+				n = 65541
+				if left-n > 0 && left-n < 6 {
+					n -= 6
+				}
+			}
+			if n < 6 {
+				return "", "" // not constructible from user properties
+			}
+			ps = append(ps, ref.Prop{ID: ref.PUser, Str: "k", Val: string(bytes.Repeat([]byte{'v'}, n-6))})
+			left -= n
+		}
+		gs = []ref.Packet{{Type: ref.PUBLISH, Topic: "a/b", Payload: []byte("p"), Qos: 1, PacketID: 7, Props: ps}}
+	}
+	for _, g := range gs {
+		want := ref.Encode(g, 5, ref.EncOpts{})
+		m := cdcToMochi(g, 5)
+		m.ProtocolVersion = 5
+		got, err, pn := cdcMEncode(&m)
+		name := cdcTname(g.Type)
+		if pn != nil || err != nil {
+			return "embedded:" + kind + ":" + name + ":encode-fails", fmt.Sprintf("%s with %s %d: encoder failed: %v %v", name, kind, v, err, pn)
+		}
+		if !bytes.Equal(got, want) {
+			return "embedded:" + kind + ":" + name + ":encode-differs", fmt.Sprintf("%s with %s %d: encoder wrote %s, the reference encoder %s", name, kind, v, cdcShort(got), cdcShort(want))
+		}
+		hdr, _, body, err := cdcSplitFixedHeader(want)
+		if err != nil {
+			return "internal:c29-embedded", err.Error()
+		}
+		back, err, pn := cdcSafeDecode(hdr, 5, body)
+		if pn != nil || err != nil {
+			return "embedded:" + kind + ":" + name + ":decode-rejects", fmt.Sprintf("%s with %s %d (%s): decoder failed: %v %v", name, kind, v, cdcShort(want), err, pn)
+		}
+		if d := cdcDiffPackets(cdcCanon(g, 5), cdcCanon(cdcFromMochi(back, 5), 5)); d != "" {
+			return "embedded:" + kind + ":" + name + ":roundtrip-differs", fmt.Sprintf("%s with %s %d does not decode back to itself: %s", name, kind, v, d)
+		}
+	}
+	return "", ""
+}
+
+// c29EmbeddedOverlong: a Subscription Identifier written with five bytes (four continuation
+// bytes) inside a SUBSCRIBE must be rejected.
+func c29EmbeddedOverlong() (key, msg string) {
+	body := []byte{0x00, 0x07, 0x06, 0x0B, 0x80, 0x80, 0x80, 0x80, 0x01, 0x00, 0x03, 'a', '/', 'b', 0x01}
+	if _, err, pn := cdcSafeDecode(0x82, 5, body); err == nil && pn == nil {
+		return "embedded:subid:SUBSCRIBE:accepts-5-byte-encoding", fmt.Sprintf("SUBSCRIBE body % x (Subscription Identifier in five bytes) was accepted", body)
+	}
+	return "", ""
 }
 
 func c29FixedHeader(v int) (key, msg string) {
@@ -216,6 +291,31 @@ func init() {
 			}
 			evals++
 		}
+		// ---- the integers inside packets: Subscription Identifier and property length
+		var embedded int64
+		seenV := map[int]bool{}
+		for k := 0; k <= 28; k++ {
+			for _, v := range []int{1<<k - 1, 1 << k, 1<<k + 1, 3 << k, 5 << k} {
+				if v < 1 || v > cdcVarintMax || seenV[v] {
+					continue
+				}
+				seenV[v] = true
+				if key, msg := c29Embedded("subid", v); key != "" {
+					c.Rep.Add(explore.Violation{Key: key, Msg: msg, Replay: codecReplay{Kind: "embedded-subid", Value: int64(v)}})
+				}
+				embedded++
+			}
+		}
+		for _, v := range []int{6, 127, 128, 129, 16383, 16384, 16385, 65541, 2097151, 2097152, 2097153} {
+			if key, msg := c29Embedded("proplen", v); key != "" {
+				c.Rep.Add(explore.Violation{Key: key, Msg: msg, Replay: codecReplay{Kind: "embedded-proplen", Value: int64(v)}})
+			}
+			embedded++
+		}
+		if key, msg := c29EmbeddedOverlong(); key != "" {
+			c.Rep.Add(explore.Violation{Key: key, Msg: msg, Replay: codecReplay{Kind: "embedded-overlong"}})
+		}
+		c.Rep.Set("embedded_integer_cases", embedded+1)
 		// ---- decoder: continuation patterns
 		type dom struct {
 			alpha  []byte
